@@ -245,6 +245,61 @@ def oracle_sources(rng, n):
     return out
 
 
+def oracle_behaviour(cat, src, t, mod):
+    """what the constructed routines of an oracle-only annotation must do: an unresolvable position hands the
+    very object through; a TypeVar stands for its bound / constraints / Any; tuple[()] is the empty fixed tuple"""
+    from typelib import marshals, unmarshals
+    family, pos = cat.split(":")
+    out = []
+
+    def fail(sym, got=None):
+        out.append({"symptom": sym, "annotation": src, "category": family, "position": pos, "got": got,
+                    "key": "C15-behave-" + src})
+
+    def both(x):
+        with warnings.catch_warnings():
+            warnings.simplefilter("ignore")
+            impl.clear_caches()
+            a = unmarshals.unmarshal(t, x)
+            b = marshals.marshal(x, t=t)
+        return a, b
+    o = object()
+    wrap = {"root": lambda v: v, "list": lambda v: [v], "dict-value": lambda v: {"k": v}, "optional": lambda v: v,
+            "tuple": lambda v: (1, v)}[pos]
+    inner = {"root": lambda r: r, "list": lambda r: list(r)[0], "dict-value": lambda r: r["k"], "optional": lambda r: r,
+             "tuple": lambda r: list(r)[1]}[pos]
+    try:
+        if family in ("callable-args", "callable-ellipsis", "type-of") or src in ("XT", "list[XT]"):
+            a, b = both(wrap(o))
+            if inner(a) is not o or inner(b) is not o:
+                fail("unresolvable position is not pass-through", repr((a, b))[:200])
+        elif src == "XTB":
+            a, b = both("5")
+            if a != 5 or type(a) is not int:
+                fail("a bound TypeVar does not stand for its bound", repr(a))
+        elif src == "XTC":
+            a, _ = both("5")
+            a2, _ = both("x")
+            if (a, a2) != (5, "x"):
+                fail("a constrained TypeVar does not stand for the union of its constraints", repr((a, a2)))
+        elif family == "bare-generic-class":
+            cls = mod.XG if "XGD" not in src else mod.XGD
+            a, b = both(wrap(cls(o)))
+            if not isinstance(inner(a), cls) or inner(a).v is not o or inner(b) != {"v": o}:
+                fail("member annotated with a free TypeVar is not pass-through", repr((a, b))[:200])
+            a, _ = both(wrap({"v": o}))
+            if not isinstance(inner(a), cls) or inner(a).v is not o:
+                fail("member annotated with a free TypeVar is not pass-through (mapping input)", repr(a)[:200])
+        elif family == "empty-tuple":
+            a, b = both([])
+            a2, _ = both("[]")
+            if a != () or a2 != () or b != []:
+                fail("tuple[()] is not the fixed tuple without members", repr((a, a2, b)))
+    except BaseException as e:
+        fail("routine of a valid annotation raised on a pass-through position", repr(e)[:200])
+    return out
+
+
 def search(run: lib.Run, broken):
     from typelib import marshals, unmarshals
     groups, records, anns = getattr(run, "_c15", (None, None, None))
@@ -324,6 +379,7 @@ def search(run: lib.Run, broken):
                               "got": {k: v[1] or v[0] for k, v in bad.items()}, "key": "C15-construct-" + src})
             else:
                 stats["nontrivial"] += 1
+                fails += oracle_behaviour(cat, src, t, mod)
     finally:
         impl.drop_module("verif_c15_oracle")
     run.search_stats["oracle"] = {
